@@ -99,12 +99,35 @@ def _has(term, heads):
     return False
 
 
-def _subst_p(term, args):
+def _subst_p(term, args, memo=None):
+    """('p', i) -> args[i]; shared sub-terms are rewritten once (terms are DAGs of immutable tuples)"""
+    if memo is None:
+        memo = {}
     if isinstance(term, tuple):
+        k = id(term)
+        if k in memo:
+            return memo[k][1]
         if term and term[0] == 'p' and len(term) == 2 and isinstance(term[1], int):
-            return args[term[1]] if term[1] < len(args) else term
-        return tuple(_subst_p(x, args) for x in term)
+            r = args[term[1]] if term[1] < len(args) else term
+        else:
+            r = tuple(_subst_p(x, args, memo) for x in term)
+            if r == term:
+                r = term
+        memo[k] = (term, r)
+        return r
     return term
+
+
+def term_size(term, limit, seen=None):
+    """number of distinct tuple nodes (stops counting at `limit`)"""
+    seen = set() if seen is None else seen
+    stack = [term]
+    while stack and len(seen) < limit:
+        t = stack.pop()
+        if isinstance(t, tuple) and id(t) not in seen:
+            seen.add(id(t))
+            stack.extend(t)
+    return len(seen)
 
 
 class Inlining:
@@ -118,6 +141,8 @@ class Inlining:
         self.cache = {}
         self.stack = []
         self.used = set()
+        self.spent = 0
+        self.budget = 60000
 
     def nf(self, name, argshapes=()):
         key = (name, argshapes)
@@ -168,6 +193,12 @@ class Inlining:
                     return None
                 extra.append(caller.expr(defaults[p_], {}))
             args = args + tuple(extra)
+        sz = term_size(val, 4000) + sum(term_size(a, 4000) for a in args)
+        if sz >= 4000:
+            return None                      # keep the call: inlining would make the comparison itself the bottleneck
+        self.spent += sz
+        if self.spent > self.budget:
+            raise Unsupported('inlining budget exhausted')
         self.used.add(name)
         return caller.refold(_subst_p(val, args))
 
@@ -195,19 +226,27 @@ class Normalizer:
         self.loop_shapes = {}
         self.inliner = None      # optional Inlining(...) : module-level helpers are replaced by their (loop-free, effect-free) normal form
 
-    def refold(self, t):
+    def refold(self, t, memo=None):
         """Re-apply the local simplifications that substitution of arguments can enable (constant index into a block / tuple)."""
         if not isinstance(t, tuple):
             return t
-        t = tuple(self.refold(x) for x in t)
-        if t and t[0] == 'idx' and len(t) == 3 and isinstance(t[1], tuple) and t[1]:
+        if memo is None:
+            memo = {}
+        k = id(t)
+        if k in memo:
+            return memo[k][1]
+        r = tuple(self.refold(x, memo) for x in t)
+        if r == t:
+            r = t
+        if r and r[0] == 'idx' and len(r) == 3 and isinstance(r[1], tuple) and r[1]:
             try:
-                return self.index(t[1], t[2])
+                r = self.index(r[1], r[2])
             except Exception:  # noqa
-                return t
-        if t and t[0] == 'unpack' and len(t) == 3 and isinstance(t[1], tuple) and t[1] and t[1][0] == 'tuple' and isinstance(t[2], int) and t[2] < len(t[1][1]):
-            return t[1][1][t[2]]
-        return t
+                pass
+        elif r and r[0] == 'unpack' and len(r) == 3 and isinstance(r[1], tuple) and r[1] and r[1][0] == 'tuple' and isinstance(r[2], int) and r[2] < len(r[1][1]):
+            r = r[1][1][r[2]]
+        memo[k] = (t, r)
+        return r
 
     @staticmethod
     def _tuple_item(b, items):
@@ -1082,22 +1121,28 @@ class Normalizer:
         def fin(x):
             if not isinstance(x, tuple):
                 return x
-            if x in memo:
-                return memo[x]
+            k_ = id(x)
+            if k_ in memo:
+                return memo[k_][1]
             if x and x[0] == 'lout':
                 r = self.canon_loop(x[1], x[2], fin)
             elif x and x[0] == 'lastiv':
                 r = ('lastiv', self.canon_loop(x[1], None, fin))
             else:
                 r = tuple(fin(y) for y in x)
-            memo[x] = r
+            memo[k_] = (x, r)
             return r
         return fin(t)
 
-    def _refs(self, term, d, acc):
+    def _refs(self, term, d, acc, seen=None):
         """indices j of the loop variables ('lv', d, j) that `term` reads; a nested loop contributes only through the
         variables its own selected output depends on (dead variables of an inner loop keep nothing alive)"""
+        if seen is None:
+            seen = set()
         if isinstance(term, tuple):
+            if id(term) in seen:
+                return
+            seen.add(id(term))
             if term and term[0] == 'lv' and term[1] == d:
                 if term[2] not in acc:
                     acc.append(term[2])
@@ -1105,18 +1150,18 @@ class Normalizer:
             if len(term) == 3 and term[0] == 'lout' and isinstance(term[1], tuple) and term[1] and term[1][0] == 'rawloop' and getattr(self, 'prune_loops', True):
                 raw2 = term[1]
                 for v in self._closure(raw2, term[2]):
-                    self._refs(raw2[3][v][0], d, acc)
-                    self._refs(raw2[3][v][1], d, acc)
-                self._refs(raw2[2], d, acc)
+                    self._refs(raw2[3][v][0], d, acc, seen)
+                    self._refs(raw2[3][v][1], d, acc, seen)
+                self._refs(raw2[2], d, acc, seen)
                 return
             if term and term[0] == 'rawloop':
                 for (i0, b0) in term[3]:
-                    self._refs(i0, d, acc)
-                    self._refs(b0, d, acc)
-                self._refs(term[2], d, acc)
+                    self._refs(i0, d, acc, seen)
+                    self._refs(b0, d, acc, seen)
+                self._refs(term[2], d, acc, seen)
                 return
             for y in term:
-                self._refs(y, d, acc)
+                self._refs(y, d, acc, seen)
 
     def _closure(self, raw, k):
         _, d, header, vars_ = raw
@@ -1146,11 +1191,21 @@ class Normalizer:
             order = list(range(len(vars_)))
         ren = {v: i for i, v in enumerate(order)}
 
+        rmemo = {}
+
         def rename(term):
             if isinstance(term, tuple):
+                k_ = id(term)
+                if k_ in rmemo:
+                    return rmemo[k_][1]
                 if term and term[0] == 'lv' and term[1] == d:
-                    return ('lv', d, ren.get(term[2], ('dead', term[2])))
-                return tuple(rename(y) for y in term)
+                    r = ('lv', d, ren.get(term[2], ('dead', term[2])))
+                else:
+                    r = tuple(rename(y) for y in term)
+                    if r == term:
+                        r = term
+                rmemo[k_] = (term, r)
+                return r
             return term
         hdr = fin(rename(header))
         vs = tuple((fin(vars_[v][0]), fin(rename(vars_[v][1]))) for v in order)
